@@ -690,15 +690,8 @@ func statDependentFields(p *Program, k *KindEnv) map[*types.Var]bool {
 
 // samePathExpr: two path expressions are the same after expanding single-definition locals.
 func samePathExpr(f *FuncInfo, a, b ast.Expr) bool {
-	as, bs := resolveExprs(f, a, 2), resolveExprs(f, b, 2)
-	for _, x := range as {
-		for _, y := range bs {
-			if types.ExprString(x) == types.ExprString(y) {
-				return true
-			}
-		}
-	}
-	// the same expression up to single-definition locals (`sid := sidecarIdentifier(item)`)
+	// the same expression up to single-definition locals (`sid := sidecarIdentifier(item)`); whole expressions are
+	// compared, never the definitions of identifiers nested in them (two different paths share `item`)
 	for i := 0; i <= 4; i++ {
 		for j := 0; j <= 4; j++ {
 			if inlineLocals(f, a, i) == inlineLocals(f, b, j) {
